@@ -41,6 +41,11 @@ def corpus_lines(prop):
 
 
 def run_pair(mod, harness, runner, lines):
+    if hasattr(mod, "run_impl"):
+        impl = mod.run_impl(lines)
+        model_lines = [mod.model_line(l) if hasattr(mod, "model_line") else l for l in lines]
+        model = vlib.run_lines(runner, model_lines)
+        return impl, model
     impl = vlib.run_lines(harness, lines)
     # crashed shards: re-run the affected cases one by one so that only real crashes remain
     crashed = [i for i, o in enumerate(impl) if o is None or o.startswith("!CRASH")]
@@ -134,16 +139,19 @@ def run_rt_property(mod, tier, seed, replay=None):
     stats["samples"] = [{"case": lines[i], "impl": impl[i][:300], "model": (model[i] or "")[:300]}
                         for i in pick_samples(lines, rng)]
 
+    def one_impl(l):
+        return mod.run_impl([l])[0] if hasattr(mod, "run_impl") else vlib.run_one(harness, l)
+
     def fails_fn(hdr, ops):
         l = vlib.case_line(hdr, ops)
-        o = vlib.run_one(harness, l)
+        o = one_impl(l)
         m = vlib.run_one(runner, mod.model_line(l) if hasattr(mod, "model_line") else l)
         f, mm = evaluate(mod, l, o, m)
         return bool(f)
 
     def mism_fn(hdr, ops):
         l = vlib.case_line(hdr, ops)
-        o = vlib.run_one(harness, l)
+        o = one_impl(l)
         m = vlib.run_one(runner, mod.model_line(l) if hasattr(mod, "model_line") else l)
         f, mm = evaluate(mod, l, o, m)
         return bool(mm)
@@ -164,7 +172,7 @@ def run_rt_property(mod, tier, seed, replay=None):
             continue
         small = vlib.shrink_ops(hdr, ops, fails_fn) if getattr(mod, "SHRINK", True) else ops
         sl = vlib.case_line(hdr, small)
-        so = vlib.run_one(harness, sl)
+        so = one_impl(sl)
         sm = vlib.run_one(runner, mod.model_line(sl) if hasattr(mod, "model_line") else sl)
         sf, _ = evaluate(mod, sl, so, sm)
         kf = match_known(mod, known, sl, sf or fails)
@@ -214,14 +222,14 @@ def run_rt_property(mod, tier, seed, replay=None):
                 small = vlib.shrink_ops(hdr, ops, fails_fn) if getattr(mod, "SHRINK", True) else ops
                 sl = vlib.case_line(hdr, small)
                 rp = vlib.write_replay(prop, seed, tier, "input", {"case": sl, "original_case": l, "failures": f,
-                                                                  "observed": vlib.run_one(harness, sl), "broken": broken})
+                                                                  "observed": one_impl(sl), "broken": broken})
                 out.violations.append(("input", "; ".join(f[:3]), rp, False))
         if broken and not out.violations:
             kind, why = broken[0]
             payload = {"what": why, "all_broken": broken}
             if kind == "correspondence":
                 i = mm[0]
-                payload.update({"case": sl, "impl": vlib.run_one(harness, sl),
+                payload.update({"case": sl, "impl": one_impl(sl),
                                 "model": vlib.run_one(runner, mod.model_line(sl) if hasattr(mod, "model_line") else sl)})
             else:
                 payload.update({"theorems": proof["theorems"], "coq_error": proof["reason"]})
